@@ -841,6 +841,7 @@ def run(ctx, deep=False):
     try:
         mine = judgement(ctx, thorough)
         tie(ctx, thorough, mine)
+        full_stack(ctx, thorough)
     finally:
         logging.disable(logging.NOTSET)
 
@@ -969,6 +970,53 @@ def tie(ctx, thorough, mine):
                 break
 
 
+def _fs_judge(gen, b):
+    """one frame per accepted call, on the wire as the console sees it: a call the application gave up on (timeout) may have put its one
+    frame on the wire or not; every other call exactly one; nothing else of the control kinds"""
+    keys = {"ac": (0x2C, None) if gen == 4 else (0xC0, 0x22), "zone": (0x2A, None) if gen == 4 else (0xC0, 0x20)}
+    kind_of = {"power": "ac", "toggle": "ac", "zone": "zone"}
+    for kind, key in keys.items():
+        made = [c for c in b["call_log"] if c[2] == "called" and kind_of[c[1]] == kind]
+        gave_up = [c for c in b["call_log"] if c[2] == "timed-out" and kind_of[c[1]] == kind]
+        seen = [r for r in b["requests"] if r[2] == key]
+        if not (len(made) - len(gave_up) <= len(seen) <= len(made)):
+            return "%d accepted %s control call(s) (%d of them abandoned by a timeout around the call) put %d %s control frames on the wire (at ticks %s)" % (
+                len(made), kind, len(gave_up), len(seen), kind, [r[0] for r in seen])
+    return None
+
+
+def full_stack(ctx, thorough):
+    """the real API object over the real socket on a congested link: the application bounds a control call with a timeout that expires
+    while the write is held up, then makes further calls.  Each accepted call still puts exactly one frame on the wire."""
+    import fullstack
+    ctx.coverage["rule"] += (
+        "; full stack (real socket, in-memory transport, scripted console): control calls on a congested link, one of them abandoned by a timeout "
+        "around the call at every offset into the congestion, followed by further calls - the console counts the control frames it receives")
+    worst = None
+    for gen in (4, 5):
+        for first in ("toggle", "zone", "power"):
+            for second in ("zone", "power"):
+                for lim in ((1, 5, 30) if thorough else (5,)):
+                    for lead in ((0, 1, 3) if thorough else (1,)):
+                        for clear in (10, 40):
+                            sc = dict(inst=fullstack.INST, horizon=260, faults=[(60, "block"), (60 + clear, "unblock")],
+                                      calls=[(60 + lead, ("timeout", first, lim)), (60 + lead + 2, second), (130, first), (131, second)])
+                            b = fullstack.run(gen, sc)
+                            ctx.case(("full-stack", gen, first, second, lim, lead, clear))
+                            if b.get("init_result") is not True:
+                                ctx.tie_broken("C11:console-script", "the full-stack console no longer initialises the AirTouch %d object" % gen)
+                                continue
+                            why = _fs_judge(gen, b)
+                            ctx.count("full-stack:%s" % ("ok" if why is None else "differs"))
+                            if why and worst is None:
+                                worst = (gen, sc, why, b)
+    if worst:
+        gen, sc, why, b = worst
+        ctx.violation("C11:%d:full-stack:frames-per-call" % gen, "AirTouch %d over the real socket, link congested from tick 60 (faults %s), calls %s: %s" % (
+            gen, sc["faults"], sc["calls"], why), kind="history", level="full-stack", gen=gen, scenario={k: v for k, v in sc.items() if k != "inst"},
+            implementation_output=str([r for r in b["requests"] if r[0] >= 60]), spec_verdict=why)
+
+
 def search(ctx):
     if ctx.tier != "thorough":
         logging.disable(logging.CRITICAL)
@@ -980,6 +1028,17 @@ def search(ctx):
 
 def replay(ctx, data):
     logging.disable(logging.CRITICAL)
+    if data.get("level") == "full-stack":
+        import fullstack
+        sc = dict(data["scenario"], inst=fullstack.INST)
+        sc["calls"] = [(t, tuple(c) if isinstance(c, list) else c) for t, c in sc["calls"]]
+        sc["faults"] = [tuple(f) for f in sc["faults"]]
+        b = fullstack.run(data["gen"], sc)
+        print("calls   ", b["call_log"])
+        print("requests", [r for r in b["requests"] if r[0] >= 60])
+        why = _fs_judge(data["gen"], b)
+        print(why or "one frame per accepted call")
+        return 1 if why else 0
     if "ops" not in data and data.get("all_broken"):
         # a broken tie: the recorded script, real object against the Lean API model
         data = dict(data["all_broken"][0], key=None)
